@@ -416,8 +416,18 @@ class RunSuite(Suite):
                 else:
                     acts.append("y%d:%d" % (ident, rng.randint(1, 9)))
             lines.append("co " + " ".join(acts))
-        lines += ["go", "end"]
+        # what the awaitable handed to start() is: future<void> / future<int>, completing / failing
+        mode = rng.choice([0, 0, 1, 2, 2, 3])
+        lines += ["go" if mode == 0 and rng.random() < 0.5 else "go %d" % mode, "end"]
         return {"id": 0, "lines": lines}
+
+    @staticmethod
+    def _go_mode(case):
+        for l in case["lines"]:
+            w = l.split()
+            if w and w[0] == "go":
+                return (int(w[1]) & 3) if len(w) > 1 else 0
+        return None
 
     def gen_cases(self, rng, tier):
         n = 2000 if tier == "quick" else 150000
@@ -438,7 +448,8 @@ class RunSuite(Suite):
         def bad(cat, txt):
             msgs.append("%s: %s" % (cat, txt))
 
-        if "go" not in case["lines"]:
+        mode = self._go_mode(case)
+        if mode is None:
             return msgs
         go = [l for l in out if l.startswith("go")]
         if not go:
@@ -503,9 +514,12 @@ class RunSuite(Suite):
                 elif b <= a:
                     bad("late", "the scheduling thread waits for %d at clock %d: a due sleep was not handed out" % (b, a))
                 continue
-            m = re.match(r"ret@(\d+)$", e)
+            m = re.match(r"ret@(\d+)(=.*)?$", e)
             if m:
                 ret = int(m.group(1))
+                want = ["", "=exc:7", "=v:%d" % (1000 + len(scripts)), "=exc:7"][mode]
+                if (m.group(2) or "") != want:
+                    bad("outcome", "start() handed back `%s`, the awaitable ended with `%s`" % (m.group(2) or "", want))
                 continue
             if e.startswith("n=") or re.match(r"\d+:\d+:[01]$", e):
                 if e.endswith(":1") and not e.startswith("n="):
@@ -539,9 +553,13 @@ class RunSuite(Suite):
 
     def stats(self, cases, outs):
         st = {"coroutines": 0, "sleeps": 0, "woken_ok": 0, "woken_cancelled": 0, "cancel_true": 0, "cancel_false": 0,
-              "thread_blocked": 0, "past_time_points": 0, "max_coroutines": 0, "awaited_cancels": 0}
+              "thread_blocked": 0, "past_time_points": 0, "max_coroutines": 0, "awaited_cancels": 0,
+              "start_awaitable": {"future<void> ok": 0, "future<void> exception": 0, "future<int> value": 0, "future<int> exception": 0}}
         for c in cases:
             sc = self._scripts(c)
+            gm = self._go_mode(c)
+            if gm is not None:
+                st["start_awaitable"][list(st["start_awaitable"])[gm]] += 1
             st["coroutines"] += len(sc)
             st["max_coroutines"] = max(st["max_coroutines"], len(sc))
             st["awaited_cancels"] += sum(1 for s_ in sc for a in s_ if a[0] in "ay")
@@ -562,6 +580,16 @@ class RunSuite(Suite):
         return st
 
 
+def entry_point(header):
+    """which public entry point started the worker (selected by the last token of the case header)"""
+    w = header.split()
+    if w[2] in ("thr", "thrstep"):
+        v = int(w[3]) % 3 if len(w) > 3 else 0
+        return ["scheduler(std::thread&)", "start(std::thread&)", "start_thread()"][v]
+    v = int(w[4]) % 2 if len(w) > 4 else 0
+    return ["scheduler(thread_pool&)", "start(thread_pool&)"][v]
+
+
 class ThreadSuite(Suite):
     """thread mode (scheduler(std::thread&)) and thread-pool mode (scheduler(thread_pool&)) with real threads under
     virtual time: the main thread acts while the worker is parked, `adv t` moves the clock from deadline to deadline"""
@@ -573,7 +601,8 @@ class ThreadSuite(Suite):
     nontrivial_rule = "the worker woke at least two sleepers at different clock readings and a cancel hit a pending sleep"
 
     def gen_case(self, rng):
-        kind = rng.choice(["thr", "thr", "pool 1", "pool 2", "pool 3"])
+        # entry point: scheduler(thread&) / start(thread&) / start_thread();  scheduler(pool&) / start(pool&)
+        kind = rng.choice(["thr", "thr 0", "thr 1", "thr 2", "thr 2", "pool 1 0", "pool 2", "pool 3 0", "pool 1 1", "pool 2 1", "pool 3 1"])
         lines = ["case 0 %s" % kind]
         nid = rng.choice([1, 2, 3, 5])
         span = rng.choice([3, 8, 20])
@@ -701,9 +730,11 @@ class ThreadSuite(Suite):
 
     def stats(self, cases, outs):
         st = {"thread_mode_cases": 0, "pool_mode_cases": 0, "woken_by_worker": 0, "cancel_true": 0, "cancel_false": 0,
-              "notified": 0, "not_notified": 0, "dropped_at_destroy": 0, "ops": {}}
+              "notified": 0, "not_notified": 0, "dropped_at_destroy": 0, "ops": {}, "entry_point": {}}
         for c in cases:
             st["thread_mode_cases" if c["lines"][0].split()[2] == "thr" else "pool_mode_cases"] += 1
+            ep = entry_point(c["lines"][0])
+            st["entry_point"][ep] = st["entry_point"].get(ep, 0) + 1
             for l in c["lines"][1:-1]:
                 k = l.split()[0]
                 st["ops"][k] = st["ops"].get(k, 0) + 1
@@ -732,7 +763,7 @@ class StepSuite(ThreadSuite):
     chunk = 25
     nontrivial_rule = "a public call ran while the worker stood in front of the scheduler mutex and the worker parked afterwards"
 
-    KINDS = ["thrstep", "poolstep 1", "poolstep 2", "poolstep 3"]
+    KINDS = ["thrstep", "thrstep 1", "thrstep 2", "poolstep 1", "poolstep 2 1", "poolstep 3", "poolstep 1 1"]
 
     def systematic(self):
         """a public call injected in front of each of the worker's first lock acquisitions"""
@@ -900,9 +931,12 @@ class StepSuite(ThreadSuite):
 
     def stats(self, cases, outs):
         st = {"thread_mode_cases": 0, "pool_mode_cases": 0, "worker_steps": 0, "calls_while_worker_at_mutex": 0,
-              "calls_while_worker_parked": 0, "parked_observations": 0, "woken_by_worker": 0, "destroyed_while_stepping": 0, "ops": {}}
+              "calls_while_worker_parked": 0, "parked_observations": 0, "woken_by_worker": 0, "destroyed_while_stepping": 0, "ops": {},
+              "entry_point": {}}
         for c in cases:
             st["thread_mode_cases" if c["lines"][0].split()[2] == "thrstep" else "pool_mode_cases"] += 1
+            ep = entry_point(c["lines"][0])
+            st["entry_point"][ep] = st["entry_point"].get(ep, 0) + 1
             ops = [x for x in c["lines"][1:] if x.split()]
             st["destroyed_while_stepping"] += "free" not in ops
             for op, l in zip(ops, outs.get(str(c["id"]), [])):
